@@ -1,6 +1,7 @@
 package props
 
 import (
+	"strings"
 	"fmt"
 	"go/token"
 
@@ -181,14 +182,14 @@ func c04(c *Ctx) {
 	// ---- R3: mutations in Put only after the radius test succeeded
 	var radiusCall *ssa.Call
 	core.Calls(m.put, func(ci ssa.CallInstruction) {
-		if core.StaticCalleeFn(ci) == m.inRadius {
-			radiusCall, _ = ci.(*ssa.Call)
+		if c2, ok := ci.(*ssa.Call); ok && ((!m.inlineTest && core.StaticCalleeFn(ci) == m.inRadius) || (m.inlineTest && m.radiusCmpCall(c2))) {
+			radiusCall = c2
 		}
 	})
 	if radiusCall == nil {
 		r.Fail("R3.refused-put-noop", core.FuncName(m.put), p.Pos(m.put.Pos()), "Put no longer calls the radius test")
 	} else {
-		gate := core.BoolCallGate("inRadius", true, func(c2 *ssa.Call) bool { return c2 == radiusCall })
+		gate := core.Gate{Name: "inRadius", Edge: m.radiusGate(true)}
 		nm := 0
 		core.Calls(m.put, func(ci ssa.CallInstruction) {
 			id := core.CalleeID(ci)
@@ -204,7 +205,22 @@ func c04(c *Ctx) {
 				"reached only through the true edge of the radius test", "a refused put can change the store: this mutation is reachable without the radius test having succeeded: "+p.PathString(w))
 		})
 		// arguments of the radius test: the same derived key
-		okArg := keyOK(m.put, radiusCall.Call.Args[len(radiusCall.Call.Args)-1], contentId)
+		testArg := radiusCall.Call.Args[len(radiusCall.Call.Args)-1]
+		if m.inlineTest {
+			// the comparison's non-radius operand is a number decoded from the key: find the decode
+			testArg = nil
+			for _, a := range radiusCall.Call.Args {
+				core.Calls(m.put, func(ci ssa.CallInstruction) {
+					id := core.CalleeID(ci)
+					if strings.HasPrefix(id, u256Pfx) && (u256BE[strings.TrimPrefix(id, u256Pfx)] || u256LE[strings.TrimPrefix(id, u256Pfx)]) && len(ci.Common().Args) == 2 {
+						if core.SameValue(core.Unwrap(ci.Common().Args[0]), core.Unwrap(a)) || ci.Value() != nil && core.SameValue(ci.Value(), core.Unwrap(a)) {
+							testArg = ci.Common().Args[1]
+						}
+					}
+				})
+			}
+		}
+		okArg := testArg != nil && keyOK(m.put, testArg, contentId)
 		r.Check(okArg, "R3.refused-put-noop", core.FuncName(m.put)+" radius-test-operand", p.Pos(radiusCall.Pos()), "the radius test is applied to the key that is written", "the radius test is applied to something other than the key that is written")
 	}
 
